@@ -160,7 +160,7 @@ MODE_OPS = ["So", "Si", "Gzd4", "G1d4", "Sm", "Rm", "DecsetMisc", "DecrstMisc", 
 SMALL_OPT = ["origin mode with a top margin", "start below the region", "start above the region"]
 
 
-def nocell(op, cols, rows, props, tabs_k="SYM", alt=2, sb=1, suffix="", mem=8, optional=(), geo=None):
+def nocell(op, cols, rows, props, tabs_k="SYM", alt=2, sb=1, suffix="", mem=5, optional=(), geo=None):
     kw = dict(sb=sb, alt=alt, tabs_k=tabs_k, limit="Some(1)")
     if geo:
         kw.update(crow=geo[0], top=geo[1], bottom=geo[2])
@@ -182,12 +182,12 @@ for op in CURSOR_OPS:
             for row in (0, 1, 2):
                 if row == (bottom if MARGIN_OPS[op] == "bottom" else top):
                     continue
-                quick = (row, top, bottom) in ((2, 1, 2), (0, 1, 2), (2, 0, 1), (1, 0, 2))
+                quick = (row, top, bottom) in (((2, 1, 2), (1, 0, 2)) if op == "RiOffMargin" else ((0, 1, 2), (2, 0, 1)))
                 nocell(op, 4, 3, {"C05": Q if quick else T, "C02": T, "C01": T}, geo=(row, top, bottom), optional=SMALL_OPT)
         nocell(op, 1, 1, {"C05": T}, geo=(0, 0, 0), optional=SMALL_OPT + ["missing / zero parameter", "parameter 65535"]) if False else None
         continue
     nocell(op, 4, 3, {"C05": Q, "C02": T, "C17": T, "C16": T, "C01": T})
-    nocell(op, 1, 1, {"C05": Q if op in ("Cuu", "Cup", "Cub", "Decstbm") else T, "C01": Q if op in ("Cup", "Decstbm", "Cha") else T}, optional=SMALL_OPT)
+    nocell(op, 1, 1, {"C05": Q if op in ("Cup", "Decstbm") else T, "C01": Q if op in ("Cup", "Decstbm", "Cha") else T}, optional=SMALL_OPT)
     nocell(op, 5, 5, {"C05": T, "C02": T}, sb=0, alt=0)
 for op in TAB_MOVE_OPS:
     nocell(op, 6, 2, {"C05": Q, "C18": Q, "C02": T, "C01": T}, tabs_k="2", optional=SMALL_OPT)
